@@ -673,6 +673,15 @@ def oracle_translator(case):
 
     registry = refmodel.Registry(jsonclass=True)
     disp, dm, registry, cfg = refmodel.make_dispatcher(case["version"], True, "funcs", registry)
+    # the clause is about payloads "the class translator rejects": which descriptors those are is the translator's own
+    # business (C08 fixes it for class names) - it is asked directly, on a parsed copy of the descriptor
+    from jsonrpclib import jsonclass as JC
+    try:
+        JC.load(json.loads(json.dumps({"__jsonclass__": case["desc"]})), cfg.classes)
+    except Exception:
+        pass
+    else:
+        raise Skip()
     try:
         out = disp._marshaled_dispatch(case["text"])
     except Exception as ex:
